@@ -74,20 +74,20 @@ Definition target_ok (st : state) (c : conn) (m : message) (r : result) (s s' : 
         match s_act s with
         | None => if full then kept m s s' else gained m s s'          (* offline: dropped only when full *)
         | Some c' =>
-            if c' =? c then gained m s s'
-            else if mem_n c' (st_dying st) && full then kept m s s'    (* receiver is going away and has no room *)
+            if mem_n c' (st_dying st) && full then kept m s s'         (* that connection is going away and has no room *)
             else gained m s s'
         end
-    | RQueueFull => kept m s s' || (negb full && gained m s s')        (* the call was cut short *)
-    | _ => kept m s s'
+    | _ => kept m s s'                                                 (* refused (ErrQueueFull) or waiting: nothing *)
     end
   else kept m s s'.                                                     (* no matching filter: nothing *)
 
-(* the publisher's own matching queue is full *)
+(* the (live) publisher's own session holds a matching filter and its queue for this message is full *)
 Definition own_full (st : state) (c : conn) (m : message) : bool :=
-  existsb (fun e => has_match (s_subs (snd e)) (m_topic m) &&
-                    option_eqb N.eqb (s_act (snd e)) (Some c) &&
-                    is_full (st_cap st) (queue_of m (snd e))) (sessions st).
+  negb (mem_n c (st_dying st)) &&
+  match session_of st c with
+  | Some (_, s) => has_match (s_subs s) (m_topic m) && is_full (st_cap st) (queue_of m s)
+  | None => false
+  end.
 (* another connected, not closing, session's matching queue is full *)
 Definition other_full (st : state) (c : conn) (m : message) : bool :=
   existsb (fun e => has_match (s_subs (snd e)) (m_topic m) &&
@@ -112,6 +112,13 @@ Definition targets_ok (st : state) (o : op) (r : result) (st' : state) : bool :=
         end
       else true
   | _ => true
+  end.
+
+(* a Publish refused with ErrQueueFull has changed nothing: no session, no queue (the retained map: retained_ok) *)
+Definition refused_ok (st : state) (o : op) (r : result) (st' : state) : bool :=
+  match o, r with
+  | OPublish _ _ _, RQueueFull => others_unchanged st st' None
+  | _, _ => true
   end.
 
 (* C11: wherever a queue grew by a Publish, the new last element has retain = false *)
@@ -224,7 +231,7 @@ Definition ret_spec (m : message) (ret : list (bytes * message)) (t : bytes) : o
 Definition retained_ok (st : state) (o : op) (r : result) (st' : state) : bool :=
   (negb (nodup_keys (st_retained st)) || nodup_keys (st_retained st')) &&
   match o, r with
-  | OPublish c m _, (ROk | RQueueFull) =>
+  | OPublish c m _, ROk =>
       forallb (fun t => option_eqb message_eqb (alookup bytes_eqb t (st_retained st')) (ret_spec m (st_retained st) t))
               (m_topic m :: map fst (st_retained st) ++ map fst (st_retained st'))
   | _, _ =>
